@@ -89,6 +89,11 @@ def configs(tier):
                 continue      # ~100 s on its own: thorough tier only
             out.append({'backend': backend, 'K': K, 'nc': 2, 'dtype': 'int16', 'item': item,
                         'sel': None if item != 'slice_ss' else [1], 'prior': True})
+    # recordings of fixed small sizes (error paths that format their message need concrete integers)
+    for backend, K, sizes in (('flat', 1, [1]), ('flat', 2, [2, 1]), ('array', 1, [3]), ('npy', 1, [2])):
+        for item in ('int', 'slice_ss'):
+            out.append({'backend': backend, 'K': K, 'nc': 2, 'dtype': 'int16', 'item': item, 'sel': None,
+                        'fixed_sizes': sizes})
     # slice bounds / integer index given as unsigned NumPy scalars (what indexing with entries of a uint array gives)
     for backend, K in (('flat', 2), ('flat', 3), ('npy', 1)):
         for item, dtn in (('slice_ss', 'uint8'), ('slice_ss', 'uint32'), ('int', 'uint16'), ('slice_sn', 'uint8')):
@@ -124,6 +129,9 @@ def run_config(cfg, e):
         rec = SymRecording(e, cfg['backend'] if cfg['backend'] != 'meta' else cfg.get('meta_backend', 'flat'),
                            cfg['K'], cfg['nc'], cfg['dtype'])
         n = rec.n
+        if cfg.get('fixed_sizes'):
+            for sp, v in zip(rec.sizes, cfg['fixed_sizes']):
+                e.assume(sp == v)
         kind = cfg['item']
         info = {}
         # ---- the index expression ----
